@@ -151,6 +151,8 @@ def clefMap (span : Span) (clefs : List RawClef) (otherStaffs : List Int) (x : I
 
 /-- anacrusis correction of the first measure: `beats0 = time_signature_map(0)[0]`,
     `d = inv_beat_map(1 + beat_map(0))` (`none` = NaN: every comparison is false);
+    when musical beats are in use the code multiplies the MUSICAL beat count by the divisions per
+    musical beat — the same bar length; the harness then passes `d` rescaled to divisions per notated beat;
     the new start is `np.round(end - beats0 * d)` (repaired: it used to be truncated) -/
 def pickupStart (s e : Int) (beats0 d : Option Rat) : Int :=
   match beats0, d with
